@@ -35,6 +35,8 @@ def plan_for(part, prop_id, verif_seed, n):
 
 def crash_fp(prop_id, res):
     sig = res.get('crash')
+    if sig == -97:
+        return '%s|crash|memcheck-error' % prop_id         # valgrind --error-exitcode=97 --exit-on-first-error=yes
     return '%s|crash|%s' % (prop_id, ('signal-%d' % sig) if sig and sig > 0 else 'abnormal-exit')
 
 
@@ -70,7 +72,9 @@ def get_simplifiers(machine):
 
 def write_replay(prop_id, part, cfg, fingerprint, kind, seed, program, detail, extra=None):
     os.makedirs(REPLAYS, exist_ok=True)
-    name = '%s-%s-%s.json' % (prop_id, part.name.replace('+', '_').replace('/', '_'), seed)
+    import hashlib
+    tag = hashlib.sha256(fingerprint.encode()).hexdigest()[:8]       # one file per (run, fingerprint): nothing is overwritten
+    name = '%s-%s-%s-%s.json' % (prop_id, part.name.replace('+', '_').replace('/', '_'), 'enum' if seed is None else seed, tag)
     path = os.path.join(REPLAYS, name)
     doc = {'property': prop_id, 'machine': part.machine, 'part': part.name, 'mode': part.mode,
            'config': cfg.as_dict(), 'fingerprint': fingerprint, 'kind': kind, 'seed': seed,
@@ -184,7 +188,7 @@ def check(prop_id, tier):
     harness_bad = []
     extra_cov = {}
     with Pool(snap) as pool:
-        if any(cfg.asan for part in prop.parts for cfg, _w in (part.configs or [])):
+        if any(cfg.asan and cfg.asan != 'valgrind' for part in prop.parts for cfg, _w in (part.configs or [])):
             pool.asan_snapshot = build.snapshot(asan=True)      # built once, before worker threads could race for it
             out('  sanitizer snapshot %s (clang -fsanitize=address)' % os.path.basename(pool.asan_snapshot))
         only_parts = [x for x in os.environ.get('ZISIM_PARTS', '').split(',') if x]      # development aid; unset in registered commands
@@ -203,7 +207,7 @@ def check(prop_id, tier):
                                        want_sample_every=max(1, (n // part.batch) // 3))
             elif part.kind == 'enum':
                 mod = importlib.import_module('zisim.machines.' + part.machine)
-                programs = mod.enum_programs(part.mode)
+                programs = mod.enum_programs(dict(part.mode, tier=tier))
                 agg = engine.run_enum(pool, part.machine, part.mode, part.configs, programs, timeout=part.timeout,
                                       deadline=time.monotonic() + budget * 3)
                 extra_cov.setdefault('enumerated_blocks', 0)
